@@ -214,10 +214,28 @@ def describe(sim):
             "cont": [int(st.index) for st in sim.exp._stages if st.continueOnError]}
 
 
-def gen_scripts(rng, info, flavour=None):
-    """exit reason of every task execution, per component reference"""
+def base_reason(entry):
+    """script entries are exit reasons, optionally with a suffix that says HOW a real engine gets the reason:
+    "X:os" / "X:launch" (X = SubmissionFailed: the task generator raises OSError / JobLaunchError, no Task exists),
+    "UnknownIssue:raise" (the task generator raises something else)"""
+    return entry.partition(":")[0]
+
+
+def _launch_variant(rng, reason, real):
+    if not real:
+        return reason
+    if reason == "SubmissionFailed":
+        return reason + rng.choice(["", ":os", ":launch", ":os", ":launch"])
+    if reason == "UnknownIssue":
+        return reason + rng.choice(["", "", ":raise"])
+    return reason
+
+
+def gen_scripts(rng, info, flavour=None, real=False):
+    """exit reason of every task execution, per component reference (`real`: the components run real engines, so a
+    reason may also come from a failing launch)"""
     flavour = flavour or rng.choice(["success", "success", "shutdown", "fail", "mixed", "mixed", "restarts",
-                                     "one-bad", "one-bad"])
+                                     "restarts", "one-bad", "one-bad"])
     scripts = {}
     the_one = rng.randrange(len(info["comps"])) if flavour == "one-bad" else None
     for ci, c in enumerate(info["comps"]):
@@ -232,9 +250,10 @@ def gen_scripts(rng, info, flavour=None):
         elif flavour == "fail" and r < 0.35:
             kind = "fail"
         elif flavour == "mixed":
-            kind = rng.choice(["ok", "ok", "ok", "shutdown" if so else "ok", "fail", "restart", "resub"])
+            kind = rng.choice(["ok", "ok", "ok", "shutdown" if so else "ok", "fail", "restart", "resub",
+                               "restart-resub"])
         elif flavour == "restarts":
-            kind = rng.choice(["ok", "restart", "restart", "resub", "resub-many"])
+            kind = rng.choice(["ok", "restart", "restart", "resub", "resub-many", "restart-resub", "restart-resub"])
         elif flavour == "one-bad" and ci == the_one:
             kind = rng.choice(["fail", "fail", "shutdown" if so else "fail"])
         s = []
@@ -243,19 +262,25 @@ def gen_scripts(rng, info, flavour=None):
             kind = rng.choice(["ok", "ok", "shutdown" if so else "ok", "fail"])
         elif kind == "resub":
             s = ["SubmissionFailed"] * rng.randint(1, 3)
-            if rng.random() < 0.3:
-                s.insert(rng.randint(0, len(s)), "Success") if False else None
             kind = rng.choice(["ok", "ok", "fail"])
         elif kind == "resub-many":
             s = ["SubmissionFailed"] * rng.randint(4, 7)
             kind = "ok"
+        elif kind == "restart-resub":
+            # launches that fail AFTER the component was restarted (the two budgets - restarts, consecutive
+            # re-submissions - must be spent separately), possibly interleaved
+            n_r = rng.randint(1, 2) if ro else 0
+            s = [rng.choice(ro) for _ in range(n_r)] + ["SubmissionFailed"] * rng.randint(1, 5)
+            if ro and rng.random() < 0.3:
+                s += [rng.choice(ro)] + ["SubmissionFailed"] * rng.randint(0, 2)
+            kind = rng.choice(["ok", "ok", "ok", "fail"])
         if kind == "shutdown" and so:
             s.append(rng.choice(so))
         elif kind == "fail" and fatal:
             s.append(rng.choice(fatal))
         elif rng.random() < 0.5:
             s.append("Success")
-        scripts[c["ref"]] = s
+        scripts[c["ref"]] = [_launch_variant(rng, x, real and not c["isRepeat"]) for x in s]
     return flavour, scripts
 
 
@@ -270,7 +295,7 @@ def own_outcome(c, script):
     resub = 0
     k = 0
     while True:
-        r = script[k] if k < len(script) else "Success"
+        r = base_reason(script[k]) if k < len(script) else "Success"
         k += 1
         if r == "Success":
             resub = 0
@@ -349,7 +374,9 @@ PERSONALITIES = {
 }
 
 
-def random_chooser(rng, personality, p_kill=0.0, max_ops=MAX_OPS):
+def random_chooser(rng, personality, p_kill=0.0, max_ops=MAX_OPS, p_split=0.0):
+    """p_split: probability that a chosen delivery of a finished-notification is executed in three separately
+    scheduled parts (["finA", c], later ["finB", c], later ["finC", c]: before / under / after comp_lock)"""
     w = PERSONALITIES[personality]
     state = {"n": 0, "killed": False}
 
@@ -361,7 +388,7 @@ def random_chooser(rng, personality, p_kill=0.0, max_ops=MAX_OPS):
         weights = []
         for op in sim.enabled():
             cands.append(op)
-            weights.append(w[op[0]])
+            weights.append(w.get(op[0], w["fin"]))
         cands.append(["sched"])
         weights.append(w["sched"] if len(cands) > 1 else 1000)
         if len(cands) > 1:
@@ -370,7 +397,10 @@ def random_chooser(rng, personality, p_kill=0.0, max_ops=MAX_OPS):
         if p_kill and not state["killed"] and rng.random() < p_kill:
             state["killed"] = True
             return ["kill"]
-        return rng.choices(cands, weights)[0]
+        op = rng.choices(cands, weights)[0]
+        if p_split and op[0] == "fin" and rng.random() < p_split:
+            return ["finA", op[1]]
+        return op
     return choose
 
 
@@ -380,6 +410,15 @@ def random_chooser(rng, personality, p_kill=0.0, max_ops=MAX_OPS):
 
 class RunResult:
     pass
+
+
+# Real engines: the package carries a restart hook that always prepares the restart, so that "the exit reason is on
+# restartHookOn and the budget is not spent" is what decides a restart - as with the stand-in engines and in
+# Ctrl.restartable (what a hook may answer, and the fallback without a hook, are property C12's business)
+RESTART_HOOK = """
+def Restart(workingDirectory, restarts, componentName, log, exitReason, exitCode):
+    return True
+"""
 
 
 def final_state_changes(info, snaps):
@@ -398,7 +437,7 @@ def final_state_changes(info, snaps):
     return out
 
 
-def run_real(template, scripts, chooser_factory, check_launch=True, cont=()):
+def run_real(template, scripts, chooser_factory, check_launch=True, cont=(), real=False):
     """Builds the experiment, runs the stage loop (Controller.initialise / Controller.run() per stage) under
     `chooser`, returns a RunResult (info, scripts actually used, ops, snaps, result of the last run(), results per
     stage, final states, launch oracle failures ...)"""
@@ -407,7 +446,8 @@ def run_real(template, scripts, chooser_factory, check_launch=True, cont=()):
     res = RunResult()
     sim = None
     try:
-        sim = detsim.Sim(flowir_yaml(template, cont), tmp, {})
+        sim = detsim.Sim(flowir_yaml(template, cont), tmp, {}, real_engines=real,
+                         extra_files={"hooks/restart.py": RESTART_HOOK} if real else None)
         info = describe(sim)
         if callable(scripts):
             scripts = scripts(info)
@@ -420,12 +460,15 @@ def run_real(template, scripts, chooser_factory, check_launch=True, cont=()):
         def on_launch(ref):
             i = sim.index[ref]
             states = [sim.state_name(r) for r in sim.refs]
+            # ground truth: a producer that ended in a final state is judged by the FIRST final state it entered
+            # (its own exit / the first finish() call), not by what the controller says about it at launch time
+            truth = [sim.true_state(r) for r in sim.refs]
             started = [bool(sim.engine(r).started) for r in sim.refs]
             staged = [sim.comp[r] in sim.controller.comp_staged_in for r in sim.refs]
             res.launches.append([i, [[p, states[p] if states[p] in FINAL else None, staged[p]]
                                      for p in info["comps"][i]["preds"]]])
             first = sim.engine(ref).runs == 1      # ComponentState.run() by the scheduler; later runs are restarts
-            for b in launch_violations(info, i, states, started):
+            for b in launch_violations(info, i, truth, started):
                 # a restart re-executes a component that was launched legitimately; what must still hold then is
                 # the finality clause (final states are permanent), the failed/shut-down clauses speak about
                 # the launch decision (restart policy is property C12)
@@ -447,6 +490,9 @@ def run_real(template, scripts, chooser_factory, check_launch=True, cont=()):
             res.stage_state = "error:" + type(exc).__name__
         res.stop = bool(sim.controller.stop_executing)
         res.n_sched = sim.n_sched
+        res.pool_errors = list(sim.pool_errors)
+        res.finish_log = list(sim.finish_log)
+        res.first_final = [sim.first_final.get(r) for r in sim.refs]
         return res
     finally:
         if sim is not None:
@@ -460,8 +506,10 @@ def model_request(info, scripts, ops):
     for c in info["comps"]:
         d = {k: c[k] for k in ("stage", "preds", "isRepeat", "isAgg", "isRepl", "shutdownOn", "restartOn",
                                "maxRestarts")}
-        d["script"] = list(scripts.get(c["ref"], []))
+        d["script"] = [base_reason(x) for x in scripts.get(c["ref"], [])]
         comps.append(d)
+    # an op that was not enabled on the real system when it was recorded (["skip", ...]) is a no-op
+    ops = [["tick", 0] if o[0] == "skip" else o for o in ops]
     return {"comps": comps, "order": info["order"], "lastStage": info["lastStage"],
             "cont": list(info.get("cont", [])), "ops": ops}
 
@@ -482,3 +530,172 @@ def window_scheds(res):
         if op[0] == "sched" and any(c[0] in FINAL and not c[1] for c in snap["comps"]):
             n += 1
     return n
+
+
+# ----------------------------------------------------------------------------------------
+# DoWhile: the set of producers of a consumer of a loop grows while the workflow runs (C01 only; the Lean model has no
+# loops: these cases are the failing-input search of the launch rules on the real Controller)
+# ----------------------------------------------------------------------------------------
+
+def gen_loop_case(rng):
+    """A package with one DoWhile document imported at stage S (S in {0, 1}): looped component `work` (optionally fed by
+    a source outside the loop), optionally a second looped component `check` (consumer of `work`) that produces the
+    loop condition (otherwise `work` does); consumers OUTSIDE the loop that reference the looped component:
+    `after` (plain `:ref`), optionally `after2` (consumer of the other looped component), optionally `collect`
+    (`:loopref`, aggregates the iterations), each in the stage of the loop or in the next one; optionally a bystander in
+    the stage of the loop.  `iters` = number of iterations the condition producer asks for."""
+    S = rng.choice([0, 0, 1])
+    iters = rng.choice([1, 2, 2, 3, 3, 4])
+    has_src = S == 1 or rng.random() < 0.5
+    two = rng.random() < 0.5
+    cond = "check" if two else "work"
+    consumers = [{"name": "after", "stage": S + rng.choice([0, 0, 1]), "of": "work", "method": "ref"}]
+    if two and rng.random() < 0.6:
+        consumers.append({"name": "after2", "stage": S + rng.choice([0, 1]), "of": "check", "method": "ref"})
+    if rng.random() < 0.4:
+        consumers.append({"name": "collect", "stage": S + rng.choice([0, 1]), "of": "work", "method": "loopref"})
+    wa = {}
+    for n in ["work"] + (["check"] if two else []):
+        w = {}
+        if rng.random() < 0.3:
+            w["shutdownOn"] = sorted(rng.sample(["KnownIssue", "SystemIssue", "Cancelled"], rng.choice([1, 2])))
+        if rng.random() < 0.3:
+            w["restartHookOn"] = ["ResourceExhausted"]
+        wa[n] = w
+    return {"loop": {"stage": S, "iters": iters, "src": has_src, "two": two, "cond": cond, "consumers": consumers,
+                     "bystander": rng.random() < 0.5, "wa": wa},
+            "scripts": None, "seed": rng.randrange(1 << 30), "personality": rng.choice(sorted(PERSONALITIES)),
+            "p_split": rng.choice([0.3, 0.6, 0.9]), "flavour": rng.choice(["success", "success", "success", "mixed"]),
+            "real": rng.random() < 0.2}
+
+
+def loop_package(lp):
+    """(main FlowIR text, {relative path: text})"""
+    import yaml
+    S = lp["stage"]
+
+    def comp(name, stage, refs, wa=None):
+        d = {"name": name, "stage": stage, "command": {"executable": "echo", "arguments": " ".join(refs) or "hello"},
+             "references": list(refs)}
+        if wa:
+            d["workflowAttributes"] = dict(wa)
+        return d
+    loop = [comp("work", 0, ["in0:ref"] if lp["src"] else [], lp["wa"].get("work"))]
+    if lp["two"]:
+        loop.append(comp("check", 0, ["work:ref"], lp["wa"].get("check")))
+    dw = {"type": "DoWhile", "inputBindings": {"in0": {"type": "ref"}} if lp["src"] else {}, "loopBindings": {},
+          "condition": "%s/iteration.next:output" % lp["cond"], "components": loop}
+    main = []
+    if lp["src"]:
+        main.append(comp("src", 0, []))
+    if lp["bystander"]:
+        main.append(comp("other", S, []))
+    main.append({"stage": S, "name": "loop", "$import": "dowhile.yaml",
+                 "bindings": {"in0": "stage0.src:ref"} if lp["src"] else {}})
+    for c in lp["consumers"]:
+        main.append(comp(c["name"], c["stage"], ["stage%d.%s:%s" % (S, c["of"], c["method"])]))
+    return yaml.safe_dump({"components": main}), {"conf/dowhile.yaml": yaml.safe_dump(dw)}
+
+
+def _iteration_of(ref):
+    """("stage0.1#work") -> (1, "work"); (None, name) for a component outside a loop"""
+    name = ref.split(".", 1)[1]
+    if "#" in name:
+        k, n = name.split("#", 1)
+        if k.isdigit():
+            return int(k), n
+    return None, name
+
+
+def run_loop(case, chooser_factory):
+    """runs a DoWhile package on the real Controller; the launch rules are evaluated at the END of the run on the set of
+    producers every launched component finally has in the graph (iterations are added while the workflow runs)"""
+    lp = case["loop"]
+    tmp = tempfile.mkdtemp(prefix="c01l-")
+    cwd = os.getcwd()
+    res = RunResult()
+    sim = None
+    try:
+        main, extra = loop_package(lp)
+        if case.get("real"):
+            extra = dict(extra, **{"hooks/restart.py": RESTART_HOOK})
+        sim = detsim.Sim(main, tmp, {}, extra_files=extra, real_engines=bool(case.get("real")))
+        scripts = case.get("scripts") or {}
+        rng = case.get("_rng")
+
+        def script_for(ref):
+            # drawn when the component appears (iterations do not exist at the start)
+            if ref not in scripts:
+                k, name = _iteration_of(ref)
+                s = []
+                if rng is not None and case.get("flavour") == "mixed" and rng.random() < 0.3:
+                    wa = lp["wa"].get(name, {}) if k is not None else {}
+                    pool = list(wa.get("shutdownOn", [])) + list(wa.get("restartHookOn", [])) + ["SubmissionFailed"]
+                    if rng.random() < 0.15:
+                        pool.append("UnknownIssue")
+                    s = [rng.choice(pool)]
+                scripts[ref] = s
+            return scripts[ref]
+
+        def sync_scripts():
+            for r in sim.refs:
+                sim.scripts[r] = list(script_for(r))
+        sync_scripts()
+
+        def on_exit(ref, reason):
+            k, name = _iteration_of(ref)
+            if k is not None and name == lp["cond"] and reason == "Success":
+                d = sim.comp[ref].specification.directory
+                with open(os.path.join(d, "iteration.next"), "w") as fh:
+                    fh.write("True\n" if k + 1 < lp["iters"] else "False\n")
+        sim.exit_hook = on_exit
+        launches = []
+
+        def on_launch(ref):
+            if sim.engine(ref).runs == 1:
+                started = dict((r, bool(sim.engine(r).started)) for r in sim.refs)
+                launches.append([ref, sim.launch_clock.get(ref), len(sim.trace), started])
+        sim.launch_hook = on_launch
+        inner = chooser_factory(sim)
+
+        def chooser(s):
+            if len(s.scripts) != len(scripts) or any(r not in scripts for r in s.refs):
+                sync_scripts()
+            return inner(s)
+        chooser.notify = getattr(inner, "notify", None) or (lambda *a: None)
+        res.result = sim.run(chooser)
+        res.results = list(sim.results)
+        res.ops = sim.ops()
+        res.refs = list(sim.refs)
+        res.scripts = {r: list(scripts.get(r, [])) for r in sim.refs}
+        res.final = [sim.state_name(r) for r in sim.refs]
+        res.pool_errors = list(sim.pool_errors)
+        G = sim.controller.graph
+        res.iterations = 1 + max([k for k, _n in (_iteration_of(r) for r in sim.refs) if k is not None] or [0])
+        res.launch_bad = []
+        res.launches = []
+        for ref, clock, at, started in launches:
+            c = sim.comp[ref]
+            spec = c.specification
+            cs = spec.componentSpecification
+            is_agg = bool(cs.isAggregating or cs.isAggregatingLoopedNodes)
+            is_rep = bool(spec.workflowAttributes["isRepeat"])
+            preds = sorted(p for p in G.predecessors(ref) if p in sim.comp)
+            res.launches.append([ref, preds])
+            for p in preds:
+                fa = sim.final_clock.get(p)
+                truth = sim.first_final.get(p)
+                if fa is None or fa > clock:
+                    if not (is_rep and sim.comp[p].stageIndex == c.stageIndex and started.get(p)):
+                        res.launch_bad.append(["launched-before-producer-final", ref, p, at])
+                elif truth == "failed":
+                    res.launch_bad.append(["launched-on-failed-producer", ref, p, at])
+                elif truth == "shutdown" and not is_agg:
+                    res.launch_bad.append(["nonaggregating-launched-on-shutdown-producer", ref, p, at])
+        res.inflight_scheds = sum(1 for op, snap in sim.trace if op[0] == "sched" and "inflight" in snap)
+        return res
+    finally:
+        if sim is not None:
+            sim.close()
+        os.chdir(cwd)
+        shutil.rmtree(tmp, ignore_errors=True)
